@@ -19,7 +19,7 @@ EXHAUSTIVE = {"quick": True, "thorough": True}
 RULE = ("exhaustive: every GT string over alleles {., 0, 1, 2, 3, 70}, separators {/, |}, ploidy 1-3 (942 strings; the lone '.' is VCF's "
         "missing-VALUE token, not a ploidy-1 genotype, and is excluded from the oracle's domain - 941 classified), each in its own "
         "one-record two-sample input, x role {selected, unselected, one of two selected samples next to a complete/missing/multiallelic one, before and after it, without projection and (every diploid string) under EVERY projection target of one population of two samples (0-4 chromosomes, odd and even shapes, --project-shape and --project-individuals) and of two one-sample populations (0-2 chromosomes each) - whether the site still counts then depends on the classification} x container {vcf, raw bcf, bgzf bcf, bgzf vcf}; quick runs L2 for all and C "
-        "for vcf + raw bcf, thorough all four containers at C. Further: every diploid string with a leading separator (VCF 4.4 `|0|1`, `/1/1`) == its plain spelling; every GT string over {., 0} at records without an ALT allele; a non-diploid genotype in an unselected column that precedes the selected one. A supplementary (not exhaustive) sweep uses allele indices 255..2^63-1 around powers of two in the VCF path. Non-trivial: every string except 0/0; distinct = (string, role, container, level).")
+        "for vcf + raw bcf, thorough all four containers at C. Further: a seventh of the strings as the LAST of 1025 / 2051 / 4097 sample columns; every diploid string with a leading separator (VCF 4.4 `|0|1`, `/1/1`) == its plain spelling; every GT string over {., 0} at records without an ALT allele; a non-diploid genotype in an unselected column that precedes the selected one. A supplementary (not exhaustive) sweep uses allele indices 255..2^63-1 around powers of two in the VCF path. Non-trivial: every string except 0/0; distinct = (string, role, container, level).")
 ASSUMPTIONS = ["'./2' style strings (missing AND multiallelic) may be reported with either reason; only 'skipped' is required",
                "allele 70 forces an int16 GT vector in BCF"]
 FLOORS = {"quick": {"evaluations": 5000, "distinct_nontrivial": 5000, "counts": {"L2_classifications": 3700, "C_runs": 3700, "C_pair_runs": 5000, "C_big_allele_runs": 200}},
@@ -183,8 +183,49 @@ def leading_separator_sweep(S, p):
                 S.case(key="LS|%s|%s|%s" % (lead, s_, container), nontrivial=True)
 
 
+def wide_cohort_sweep(S, p):
+    """The genotype under test sits in the LAST column of a cohort of more than a thousand samples (1025, 2051, 4097 columns; every
+    other sample 0/0) and is the only selected sample, or selected together with the first: it must be classified like anywhere else."""
+    for k_, s_ in enumerate(p["gts"][::7]):
+        g = parse_gt(s_)
+        if g == ((None,), ()):
+            continue
+        c = classify(g)
+        n = [1025, 2051, 4097][(k_ + p["i"]) % 3]
+        names = ["w%04d" % j for j in range(n - 1)] + ["sel"]
+        maxa = max([a for a in g[0] if a is not None] + [1])
+        rec = Record("ctg7", 4242, [((0, 0), (False,))] * (n - 1) + [g], ref="A", alts=ALTS[:max(maxa, 2)])
+        cs = CallSet(names, [("ctg1", 5000), ("ctg7", 100000)], [rec])
+        for container in ("vcf", "rawbcf"):
+            data = E.encode(cs, container, None, layout="single")
+            for sel in ([("sel", None)], [("w0000", None), ("sel", None)]):
+                r = E.cli_create(data, sel, samples_via="file" if len(sel) > 1 else "arg")
+                S.count("C_runs")
+                S.count("C_wide_cohort_runs")
+                m = 2 * len(sel)
+                if c[0] == "ploidy":
+                    okk = r.rc != 0 and not r.out and b"ctg7:4242" in r.err
+                    want = "failure naming ctg7:4242"
+                else:
+                    cells = [0] * (m + 1)
+                    if c[0] == "geno":
+                        cells[c[1]] = 1
+                    want = ("#SHAPE=<%d>\n%s\n" % (m + 1, " ".join(map(str, cells)))).encode()
+                    okk = r.rc == 0 and r.out == want
+                if r.panicked or r.signal:
+                    S.viol("C08:panic:%s:%s" % ("bcf" if "bcf" in container else "vcf", panic_sig(r.err) if r.err.strip() else "signal"),
+                           "[C %s GT %s in the last of %d columns] panicked/killed: rc %s %r" % (container, s_, n, r.rc, r.err[:300]),
+                           {"gt": s_, "level": "C", "argv": r.argv, "columns": n, "run": r.brief()})
+                elif not okk:
+                    S.viol("C08:wide-cohort:%s" % container, "[C %s GT %s in the last of %d columns, %d selected] rc %s stdout %r stderr %r; expected %r" % (
+                        container, s_, n, len(sel), r.rc, r.out[:80], r.err[:160], want if isinstance(want, str) else want[:80]),
+                        {"gt": s_, "level": "C", "argv": r.argv, "columns": n, "run": r.brief()})
+                S.case(key="WC|%s|%s|%d|%d" % (s_, container, n, len(sel)), nontrivial=True)
+
+
 def shard(S, p):
     if "replay" not in p:
+        wide_cohort_sweep(S, p)
         big_allele_sweep(S, p)
         no_alt_and_column_order(S, p)
         leading_separator_sweep(S, p)
